@@ -2,7 +2,7 @@
 
    Statements are about muSSA (Lang/MuSSA.v): ALL programs, ALL oracle sequences (branch outcomes, indices, map slots),
    ALL execution lengths, ALL post-fixpoints S of the constraint system of Model/Andersen.v (in particular the least one
-   computed by the naive solver, [analyze_sound]).  Fragments covered by the one invariant (Proofs/Andersen.v):
+   computed by the extracted saturating solver, [analyze_sound]).  Fragments covered by the one invariant (Proofs/Andersen.v):
    alloc/copy/phi/convert/load/store/field/index (core), static calls and returns, closures and dynamic calls,
    interfaces (tagged boxes, invoke by dynamic type, type assertion).
    Gap to the property as stated for Go: muSSA has no tuples / multiple results, no struct values in registers, no
